@@ -177,8 +177,14 @@ theorem pl_zero : PL cfg code lim mod T N σ lab s c 0 := by
   rw [loopRun]; trivial
 
 /-- `let` and assignments (and `while`, given the loop statement at the fuel below). -/
+theorem cB_vm_mono (mod : String) (b : Block) (env : CEnv) (k : String) :
+    cnt env.vm k ≤ cnt (cB mod b env).2.vm k :=
+  (cS_vm_mono mod (Frag.depthBS b)).2.2 b env (Nat.le_refl _) k
+
 theorem ps_step (hc : s.calls = f :: rest) (hf : findCode code f.fn = some c) (hg : Good T N σ lim s.mp)
-    (n : Nat) (hPL : PL cfg code lim mod T N σ lab s c n) : PS cfg code lim mod T N σ lab s c (n + 1) := by
+    (n : Nat) (hPL : PL cfg code lim mod T N σ lab s c n)
+    (hPBlow : ∀ m, m + 1 = n → PB cfg code lim mod T N σ lab s c m) :
+    PS cfg code lim mod T N σ lab s c (n + 1) := by
   intro st env spec ip stk mem hs hT hws hN hpl hrel hheap
   cases st
   case typedef | trigger | ret | brk | cont | loopS | forS => simp [Frag.okS] at hs
@@ -212,93 +218,253 @@ theorem ps_step (hc : s.calls = f :: rest) (hf : findCode code f.fn = some c) (h
       · rw [declareSt_scopes]
         exact hdecl
   case exprS sp e =>
-    obtain ⟨asp, op, isp, ity, name, isFn, isSing, r, rfl, hr, hlog⟩ := okS_exprS_inv sp e hs
-    simp only [Frag.wsS] at hws
-    obtain ⟨hname, hvr⟩ := resolved_cons hws
-    simp only [Frag.identsS, List.mem_cons] at hT
-    have hxT : name ∈ T := hT name (Or.inl rfl)
-    -- the variable is bound on both sides
-    have hlk := hrel.scopes.lookup T σ lim s.mp name hxT
-    cases hρ : ρS env.scopes name with
-    | none => simp [hρ] at hname
-    | some m =>
-    cases hls : lookupScopes name spec.scopes with
-    | none => simp [hρ, hls] at hlk
-    | some cur =>
-    simp only [hρ, hls] at hlk
-    obtain ⟨⟨hm0, hm1, hmv⟩, hmlive⟩ := hlk
-    have hNm : N m := hrel.inN m hmlive
-    have henv := hrel.scopes.envRel T σ lim s.mp (Frag.varsE r) (fun x hx => hT x (Or.inr hx)) hvr
-    rw [evalStmt_exprS]
-    match n with
-    | 0 => rw [evalExpr]; trivial
-    | 1 => rw [evalExpr_assign_short]; trivial
-    | n' + 2 =>
-    cases op with
-    | none =>
-      simp only [cS, hρ, Option.getD_some] at hN hpl ⊢
-      generalize hcr : cpE mod (ρS env.scopes) r env.lm = cr at hN hpl ⊢
-      obtain ⟨hplE, hplS⟩ := hpl.append
-      obtain ⟨iset, _⟩ := hplS.instr (i := .setVar m) rfl
-      have h1 := exec_pure cfg code lim mod (ρS env.scopes) σ lab s f rest c hc hf (n' + 1) r spec ip stk mem env.lm hr
-        (hcr ▸ hplE) henv hheap
-      rw [hcr] at h1
-      rw [evalExpr_assign_none]
-      rcases hev : evalExpr cfg (n' + 1) r spec with ⟨r1, st1⟩
+    rcases okS_exprS_inv sp e hs with ⟨asp, op, isp, ity, name, isFn, isSing, r, rfl, hr, hlog⟩ |
+      ⟨isp, ty, cnd, t, eb, rfl, hty, hcnd, ht, heb⟩ | ⟨isp, ty, cnd, t, rfl, hty, hcnd, ht⟩
+    ·
+      simp only [Frag.wsS] at hws
+      obtain ⟨hname, hvr⟩ := resolved_cons hws
+      simp only [Frag.identsS, List.mem_cons] at hT
+      have hxT : name ∈ T := hT name (Or.inl rfl)
+      -- the variable is bound on both sides
+      have hlk := hrel.scopes.lookup T σ lim s.mp name hxT
+      cases hρ : ρS env.scopes name with
+      | none => simp [hρ] at hname
+      | some m =>
+      cases hls : lookupScopes name spec.scopes with
+      | none => simp [hρ, hls] at hlk
+      | some cur =>
+      simp only [hρ, hls] at hlk
+      obtain ⟨⟨hm0, hm1, hmv⟩, hmlive⟩ := hlk
+      have hNm : N m := hrel.inN m hmlive
+      have henv := hrel.scopes.envRel T σ lim s.mp (Frag.varsE r) (fun x hx => hT x (Or.inr hx)) hvr
+      rw [evalStmt_exprS]
+      match n with
+      | 0 => rw [evalExpr]; trivial
+      | 1 => rw [evalExpr_assign_short]; trivial
+      | n' + 2 =>
+      cases op with
+      | none =>
+        simp only [cS, hρ, Option.getD_some] at hN hpl ⊢
+        generalize hcr : cpE mod (ρS env.scopes) r env.lm = cr at hN hpl ⊢
+        obtain ⟨hplE, hplS⟩ := hpl.append
+        obtain ⟨iset, _⟩ := hplS.instr (i := .setVar m) rfl
+        have h1 := exec_pure cfg code lim mod (ρS env.scopes) σ lab s f rest c hc hf (n' + 1) r spec ip stk mem env.lm hr
+          (hcr ▸ hplE) henv hheap
+        rw [hcr] at h1
+        rw [evalExpr_assign_none]
+        rcases hev : evalExpr cfg (n' + 1) r spec with ⟨r1, st1⟩
+        rw [hev] at h1
+        cases r1 with
+        | error ce' => cases ce' <;> first | trivial | exact h1.elim | exact h1.2
+        | ok v =>
+          obtain ⟨rfl, hrun⟩ := h1
+          obtain ⟨ss', hass, hrel'⟩ := hrel.assign hg name hxT m hρ v
+          simp only [writePlace_var name false v st1 ss' hass]
+          refine ⟨rfl, _, (hrun.trans (RunsTo.of_exec1 (fun k =>
+            reach_setVar code lim s _ k stk mem f rest c hc hf _ asp v none iset hm0 hm1))).cast ?_, hrel'⟩
+          rw [nI_append, nI_instr _ _ _ rfl]; simp only [nI_nil]; omega
+      | some o =>
+        have hlog := hlog o rfl
+        simp only [cS, hρ, Option.getD_some] at hN hpl ⊢
+        generalize hcr : cpE mod (ρS env.scopes) r env.lm = cr at hN hpl ⊢
+        -- (([getVar m] ++ cr.1) ++ arith) ++ [setVar m]
+        obtain ⟨h3, hplS⟩ := hpl.append
+        obtain ⟨h2, hplA⟩ := h3.append
+        obtain ⟨hplG, hplE⟩ := h2.append
+        obtain ⟨iget, _⟩ := hplG.instr (i := .getVar m) rfl
+        obtain ⟨iset, _⟩ := hplS.instr (i := .setVar m) rfl
+        have hnG : nI [((Instr.getVar m : SInstr), asp)] = 1 := rfl
+        simp only [nI_append, hnG] at hplE hplA iset ⊢
+        simp only [← Nat.add_assoc] at hplA iset
+        have hget : RunsTo code lim s ip stk mem (ip + 1) (⟨cur, none⟩ :: stk) mem :=
+          RunsTo.of_exec1 (fun k => reach_getVar code lim s ip k stk mem f rest c hc hf (σ m) asp cur iget hm0 hm1 hmv)
+        have h1 := exec_pure cfg code lim mod (ρS env.scopes) σ lab s f rest c hc hf (n' + 1) r spec (ip + 1)
+          (⟨cur, none⟩ :: stk) mem env.lm hr (hcr ▸ hplE) henv hheap
+        rw [hcr] at h1
+        rw [evalExpr_assign_some, readPlace_var name false cur spec hls]
+        simp only []
+        rcases hev : evalExpr cfg (n' + 1) r spec with ⟨r1, st1⟩
+        rw [hev] at h1
+        cases r1 with
+        | error ce' => cases ce' <;> first | trivial | exact h1.elim | exact hget.fatal h1.2
+        | ok b =>
+          obtain ⟨rfl, hrun⟩ := h1
+          simp only []
+          have ha := exec_arith code lim s f rest c σ lab hc hf o asp cur b none none st1 (ip + 1 + nI cr.1)
+            stk mem hlog hplA hheap
+          rcases hb : binOp o cur b asp st1 with ⟨rb, st2⟩
+          have hst2 : st2 = st1 := by
+            have := (binOp_heapOnly o cur b asp).state st1
+            rw [hb] at this; exact this
+          subst hst2
+          rw [hb] at ha
+          cases rb with
+          | error cb => cases cb <;> first | trivial | exact ha.elim | exact (hget.trans hrun).fatal ha
+          | ok v =>
+            simp only [] at ha ⊢
+            obtain ⟨ss', hass, hrel'⟩ := hrel.assign hg name hxT m hρ v
+            simp only [writePlace_var name false v st2 ss' hass]
+            refine ⟨rfl, _, (((hget.trans hrun).trans ha).trans (RunsTo.of_exec1 (fun k =>
+              reach_setVar code lim s _ k stk mem f rest c hc hf _ asp v none iset hm0 hm1))).cast ?_, hrel'⟩
+            rw [nI_instr _ _ _ rfl]; simp only [nI_nil]; omega
+
+    · -- `if c { … } else { … }`
+      simp only [Frag.wsS, Bool.and_eq_true] at hws
+      obtain ⟨⟨hvc, hwt⟩, hwe⟩ := hws
+      simp only [Frag.identsS, List.mem_append] at hT
+      rw [evalStmt_exprS]
+      match n, hPBlow with
+      | 0, _ => rw [evalExpr]; trivial
+      | m + 1, hPBlow =>
+      have hPB := hPBlow m rfl
+      simp only [cS, codeVars_append, List.mem_append] at hN hpl ⊢
+      generalize hC : cpE mod (ρS env.scopes) cnd env.lm = C at hN hpl hwt hwe ⊢
+      generalize hAf : freshLabel mod C.2 "if_after" = aft at hN hpl hwt hwe ⊢
+      generalize hEl : freshLabel mod aft.2 "else" = els at hN hpl hwt hwe ⊢
+      generalize hTb : cB mod t { env with lm := els.2 } = Tb at hN hpl hwe ⊢
+      generalize hEb : cB mod eb Tb.2 = Eb at hN hpl ⊢
+      obtain ⟨h5, hZ⟩ := hpl.append
+      obtain ⟨h4, hplE⟩ := h5.append
+      obtain ⟨h3, hY⟩ := h4.append
+      obtain ⟨h2, hplT⟩ := h3.append
+      obtain ⟨hplC, hX⟩ := h2.append
+      obtain ⟨ijif, _⟩ := hX.instr (i := .jumpIfFalse els.1) rfl
+      obtain ⟨ijmp, hY'⟩ := hY.instr (i := .jump aft.1) rfl
+      obtain ⟨eels, _⟩ := hY'.label
+      obtain ⟨eaft, _⟩ := hZ.label
+      have hnCX : nI (C.1 ++ [((Instr.jumpIfFalse els.1 : SInstr), isp)]) = nI C.1 + 1 := by
+        rw [nI_append, nI_instr _ _ _ rfl]; rfl
+      have hnY : nI [((Instr.jump aft.1 : SInstr), isp), (.label els.1, isp)] = 1 := rfl
+      have hn : nI (C.1 ++ [((Instr.jumpIfFalse els.1 : SInstr), isp)] ++ Tb.1 ++
+          [(.jump aft.1, isp), (.label els.1, isp)] ++ Eb.1 ++ [(.label aft.1, isp)]) =
+          nI C.1 + 1 + nI Tb.1 + 1 + nI Eb.1 := by
+        rw [nI_append, nI_append, nI_append, nI_append, hnCX, hnY]; rfl
+      simp only [nI_append, hnCX, hnY] at hplT ijmp eels hplE eaft
+      rw [hn]
+      have hscT : Tb.2.scopes = env.scopes := by rw [← hTb, cB_scopes]
+      have hscE : Eb.2.scopes = env.scopes := by rw [← hEb, cB_scopes, hscT]
+      have hvmT : ∀ k, cnt env.vm k ≤ cnt Tb.2.vm k := fun k => by rw [← hTb]; exact cB_vm_mono mod t { env with lm := els.2 } k
+      have hvmE : ∀ k, cnt Tb.2.vm k ≤ cnt Eb.2.vm k := fun k => by rw [← hEb]; exact cB_vm_mono mod eb _ k
+      have henvc := hrel.scopes.envRel T σ lim s.mp (Frag.varsE cnd) (fun x hx => hT x (Or.inl hx)) hvc
+      have h1 := exec_pure cfg code lim mod (ρS env.scopes) σ lab s f rest c hc hf m cnd spec ip stk mem env.lm hcnd
+        (hC ▸ hplC) henvc hheap
+      rw [hC] at h1
+      rw [evalExpr_ifE]
+      rcases hev : evalExpr cfg m cnd spec with ⟨r1, st1⟩
       rw [hev] at h1
       cases r1 with
       | error ce' => cases ce' <;> first | trivial | exact h1.elim | exact h1.2
       | ok v =>
         obtain ⟨rfl, hrun⟩ := h1
-        obtain ⟨ss', hass, hrel'⟩ := hrel.assign hg name hxT m hρ v
-        simp only [writePlace_var name false v st1 ss' hass]
-        refine ⟨rfl, _, (hrun.trans (RunsTo.of_exec1 (fun k =>
-          reach_setVar code lim s _ k stk mem f rest c hc hf _ asp v none iset hm0 hm1))).cast ?_, hrel'⟩
-        rw [nI_append, nI_instr _ _ _ rfl]; simp only [nI_nil]; omega
-    | some o =>
-      have hlog := hlog o rfl
-      simp only [cS, hρ, Option.getD_some] at hN hpl ⊢
-      generalize hcr : cpE mod (ρS env.scopes) r env.lm = cr at hN hpl ⊢
-      -- (([getVar m] ++ cr.1) ++ arith) ++ [setVar m]
-      obtain ⟨h3, hplS⟩ := hpl.append
-      obtain ⟨h2, hplA⟩ := h3.append
-      obtain ⟨hplG, hplE⟩ := h2.append
-      obtain ⟨iget, _⟩ := hplG.instr (i := .getVar m) rfl
-      obtain ⟨iset, _⟩ := hplS.instr (i := .setVar m) rfl
-      have hnG : nI [((Instr.getVar m : SInstr), asp)] = 1 := rfl
-      simp only [nI_append, hnG] at hplE hplA iset ⊢
-      simp only [← Nat.add_assoc] at hplA iset
-      have hget : RunsTo code lim s ip stk mem (ip + 1) (⟨cur, none⟩ :: stk) mem :=
-        RunsTo.of_exec1 (fun k => reach_getVar code lim s ip k stk mem f rest c hc hf (σ m) asp cur iget hm0 hm1 hmv)
-      have h1 := exec_pure cfg code lim mod (ρS env.scopes) σ lab s f rest c hc hf (n' + 1) r spec (ip + 1)
-        (⟨cur, none⟩ :: stk) mem env.lm hr (hcr ▸ hplE) henv hheap
-      rw [hcr] at h1
-      rw [evalExpr_assign_some, readPlace_var name false cur spec hls]
-      simp only []
-      rcases hev : evalExpr cfg (n' + 1) r spec with ⟨r1, st1⟩
+        cases v <;> try trivial
+        rename_i bv
+        have hjif := RunsTo.of_exec1 (fun k =>
+          reach_jumpIfFalse code lim s _ k stk mem f rest c hc hf (lab els.1) isp bv none ijif)
+        cases bv with
+        | true =>
+          simp only []
+          have hpre : RunsTo code lim s ip stk mem (ip + (nI C.1 + 1)) stk mem :=
+            (hrun.trans hjif).cast (by simp only [if_true]; omega)
+          have hb := hPB t { env with lm := els.2 } st1 (ip + (nI C.1 + 1)) stk mem ht
+            (fun x hx => hT x (Or.inr (Or.inl hx))) hwt
+            (fun mm hm => hN mm (Or.inl (Or.inl (Or.inl (Or.inr (hTb ▸ hm)))))) (hTb ▸ hplT) hrel hheap
+          rw [hTb] at hb
+          rcases hbe : inScope (evalBlock cfg m t) st1 with ⟨r2, st2⟩
+          rw [hbe] at hb
+          cases r2 with
+          | error ce' => cases ce' <;> first | trivial | exact hb.elim | exact hpre.fatal hb
+          | ok u =>
+            obtain ⟨hfr, mem1, hrunB, hrelB⟩ := hb
+            refine ⟨hfr, mem1, ((hpre.trans hrunB).trans (RunsTo.of_exec1 (fun k =>
+              reach_jump code lim s _ k _ mem1 f rest c hc hf (lab aft.1) isp (by
+                rw [← Nat.add_assoc] at ijmp ⊢; exact ijmp)))).cast (by omega), ?_⟩
+            rw [hscE, ← hscT]
+            exact hrelB.vm_mono hvmE
+        | false =>
+          simp only []
+          have hpre : RunsTo code lim s ip stk mem (ip + (nI C.1 + 1 + nI Tb.1 + 1)) stk mem :=
+            (hrun.trans hjif).cast (by simp only [Bool.false_eq_true, if_false]; omega)
+          have hrelT : StRel mod T N σ lim s.mp Tb.2.scopes Tb.2.vm st1.scopes mem := by
+            rw [hscT]; exact hrel.vm_mono hvmT
+          have hb := hPB eb Tb.2 st1 (ip + (nI C.1 + 1 + nI Tb.1 + 1)) stk mem heb
+            (fun x hx => hT x (Or.inr (Or.inr hx))) hwe
+            (fun mm hm => hN mm (Or.inl (Or.inr (hEb ▸ hm)))) (hEb ▸ hplE) hrelT hheap
+          rw [hEb] at hb
+          rcases hbe : inScope (evalBlock cfg m eb) st1 with ⟨r2, st2⟩
+          rw [hbe] at hb
+          cases r2 with
+          | error ce' => cases ce' <;> first | trivial | exact hb.elim | exact hpre.fatal hb
+          | ok u =>
+            obtain ⟨hfr, mem1, hrunB, hrelB⟩ := hb
+            exact ⟨hfr, mem1, (hpre.trans hrunB).cast (by omega), hrelB⟩
+    · -- `if c { … }`
+      simp only [Frag.wsS, Bool.and_eq_true] at hws
+      obtain ⟨hvc, hwt⟩ := hws
+      simp only [Frag.identsS, List.mem_append] at hT
+      rw [evalStmt_exprS]
+      match n, hPBlow with
+      | 0, _ => rw [evalExpr]; trivial
+      | m + 1, hPBlow =>
+      have hPB := hPBlow m rfl
+      simp only [cS, codeVars_append, List.mem_append] at hN hpl ⊢
+      generalize hC : cpE mod (ρS env.scopes) cnd env.lm = C at hN hpl hwt ⊢
+      generalize hAf : freshLabel mod C.2 "if_after" = aft at hN hpl hwt ⊢
+      generalize hEl : freshLabel mod aft.2 "else" = els at hN hpl hwt ⊢
+      generalize hTb : cB mod t { env with lm := els.2 } = Tb at hN hpl ⊢
+      -- ((C ++ [jif after]) ++ T) ++ [jump after, label after]
+      obtain ⟨h3, hY⟩ := hpl.append
+      obtain ⟨h2, hplT⟩ := h3.append
+      obtain ⟨hplC, hX⟩ := h2.append
+      obtain ⟨ijif, _⟩ := hX.instr (i := .jumpIfFalse aft.1) rfl
+      obtain ⟨ijmp, hY'⟩ := hY.instr (i := .jump aft.1) rfl
+      obtain ⟨eaft, _⟩ := hY'.label
+      have hnCX : nI (C.1 ++ [((Instr.jumpIfFalse aft.1 : SInstr), isp)]) = nI C.1 + 1 := by
+        rw [nI_append, nI_instr _ _ _ rfl]; rfl
+      have hnY : nI [((Instr.jump aft.1 : SInstr), isp), (.label aft.1, isp)] = 1 := rfl
+      have hn : nI (C.1 ++ [((Instr.jumpIfFalse aft.1 : SInstr), isp)] ++ Tb.1 ++
+          [(.jump aft.1, isp), (.label aft.1, isp)]) = nI C.1 + 1 + nI Tb.1 + 1 := by
+        rw [nI_append, nI_append, hnCX, hnY]
+      simp only [nI_append, hnCX] at hplT ijmp eaft
+      rw [hn]
+      have hscT : Tb.2.scopes = env.scopes := by rw [← hTb, cB_scopes]
+      have hvmT : ∀ k, cnt env.vm k ≤ cnt Tb.2.vm k := fun k => by rw [← hTb]; exact cB_vm_mono mod t { env with lm := els.2 } k
+      have henvc := hrel.scopes.envRel T σ lim s.mp (Frag.varsE cnd) (fun x hx => hT x (Or.inl hx)) hvc
+      have h1 := exec_pure cfg code lim mod (ρS env.scopes) σ lab s f rest c hc hf m cnd spec ip stk mem env.lm hcnd
+        (hC ▸ hplC) henvc hheap
+      rw [hC] at h1
+      rw [evalExpr_ifE_none]
+      rcases hev : evalExpr cfg m cnd spec with ⟨r1, st1⟩
       rw [hev] at h1
       cases r1 with
-      | error ce' => cases ce' <;> first | trivial | exact h1.elim | exact hget.fatal h1.2
-      | ok b =>
+      | error ce' => cases ce' <;> first | trivial | exact h1.elim | exact h1.2
+      | ok v =>
         obtain ⟨rfl, hrun⟩ := h1
-        simp only []
-        have ha := exec_arith code lim s f rest c σ lab hc hf o asp cur b none none st1 (ip + 1 + nI cr.1)
-          stk mem hlog hplA hheap
-        rcases hb : binOp o cur b asp st1 with ⟨rb, st2⟩
-        have hst2 : st2 = st1 := by
-          have := (binOp_heapOnly o cur b asp).state st1
-          rw [hb] at this; exact this
-        subst hst2
-        rw [hb] at ha
-        cases rb with
-        | error cb => cases cb <;> first | trivial | exact ha.elim | exact (hget.trans hrun).fatal ha
-        | ok v =>
-          simp only [] at ha ⊢
-          obtain ⟨ss', hass, hrel'⟩ := hrel.assign hg name hxT m hρ v
-          simp only [writePlace_var name false v st2 ss' hass]
-          refine ⟨rfl, _, (((hget.trans hrun).trans ha).trans (RunsTo.of_exec1 (fun k =>
-            reach_setVar code lim s _ k stk mem f rest c hc hf _ asp v none iset hm0 hm1))).cast ?_, hrel'⟩
-          rw [nI_instr _ _ _ rfl]; simp only [nI_nil]; omega
+        cases v <;> try trivial
+        rename_i bv
+        have hjif := RunsTo.of_exec1 (fun k =>
+          reach_jumpIfFalse code lim s _ k stk mem f rest c hc hf (lab aft.1) isp bv none ijif)
+        cases bv with
+        | true =>
+          simp only []
+          have hpre : RunsTo code lim s ip stk mem (ip + (nI C.1 + 1)) stk mem :=
+            (hrun.trans hjif).cast (by simp only [if_true]; omega)
+          have hb := hPB t { env with lm := els.2 } st1 (ip + (nI C.1 + 1)) stk mem ht
+            (fun x hx => hT x (Or.inr hx)) hwt
+            (fun mm hm => hN mm (Or.inl (Or.inr (hTb ▸ hm)))) (hTb ▸ hplT) hrel hheap
+          rw [hTb] at hb
+          rcases hbe : inScope (evalBlock cfg m t) st1 with ⟨r2, st2⟩
+          rw [hbe] at hb
+          cases r2 with
+          | error ce' => cases ce' <;> first | trivial | exact hb.elim | exact hpre.fatal hb
+          | ok u =>
+            obtain ⟨hfr, mem1, hrunB, hrelB⟩ := hb
+            exact ⟨hfr, mem1, ((hpre.trans hrunB).trans (RunsTo.of_exec1 (fun k =>
+              reach_jump code lim s _ k _ mem1 f rest c hc hf (lab aft.1) isp (by
+                rw [← Nat.add_assoc] at ijmp ⊢; exact ijmp)))).cast (by omega), hrelB⟩
+        | false =>
+          refine ⟨rfl, mem, (hrun.trans hjif).cast (by simp only [Bool.false_eq_true, if_false]; omega), ?_⟩
+          rw [hscT]
+          exact hrel.vm_mono hvmT
   case whileS sp cnd body =>
     rw [evalStmt_while]
     have h := hPL sp cnd body env spec ip stk mem hs hT hws hN hpl hrel hheap
@@ -469,11 +635,14 @@ theorem exec_stmt_all (hc : s.calls = f :: rest) (hf : findCode code f.fn = some
     ∀ fuel, PS cfg code lim mod T N σ lab s c fuel ∧ PSs cfg code lim mod T N σ lab s c fuel ∧
       PB cfg code lim mod T N σ lab s c fuel ∧ PL cfg code lim mod T N σ lab s c fuel := by
   intro fuel
-  induction fuel with
+  induction fuel using Nat.strongRecOn with
+  | _ fuel ih =>
+  cases fuel with
   | zero => exact ⟨ps_zero, pss_zero, pb_zero, pl_zero⟩
-  | succ n ih =>
-    obtain ⟨h1, h2, h3, h4⟩ := ih
-    exact ⟨ps_step hc hf hg n h4, pss_step n h1 h2, pb_step n h2, pl_step hc hf n h3 h4⟩
+  | succ n =>
+    obtain ⟨h1, h2, h3, h4⟩ := ih n (Nat.lt_succ_self n)
+    exact ⟨ps_step hc hf hg n h4 (fun m hm => (ih m (by omega)).2.2.1), pss_step n h1 h2, pb_step n h2,
+      pl_step hc hf n h3 h4⟩
 
 end Main
 
